@@ -4,7 +4,7 @@ from model import (dstr, strip, fact_holds, mentions_field, mentions_call, menti
                    mentions_enum, const_value, walk)
 from rules import (guarded, calls_to, field_writes, who_may_write, who_may_call, full_range,
                    loops_over, every_iteration_passes, basename, origins, is_var, is_enum,
-                   lastname, dominated_by, must_pass, reached_only_via, skip_conditions_exact)
+                   lastname, dominated_by, must_pass, reached_only_via, skip_conditions_exact, deep_resolve)
 from props.scan_common import check_cc, ts_comparisons, true_succ, check_active_edges
 
 
@@ -73,7 +73,36 @@ def run(ctx):
         ctx.check('C07.O1', r is None, wc.name, 'runner:completed-edge-dropped', wc.where(e),
                   'after erasing the edge from subproc_to_edge_ the runner returns a CommandCompleted that names it',
                   witness=None if r is None else {'blocks': r[0]})
-    ctx.floor('C07.O1', 12)
+    # the same holds for the build that regenerates the manifest: what Builder::Build returned there (130 on an interrupt)
+    # leaves RebuildManifest through its out-parameter when that build did not succeed, and real_main exits with it -
+    # not with a constant - after a failed regeneration
+    rbm = prog.fn('NinjaMain::RebuildManifest')
+    outp = [p_['n'] for p_ in rbm.params if 'ExitStatus *' in (p_.get('ty') or '') or 'ExitStatus*' in (p_.get('ty') or '')]
+    sts = [e for e in rbm.events('asg') if outp and isinstance(strip(e['l']), dict) and strip(e['l']).get('k') == 'un' and mentions_var(e['l'], outp[0])]
+    okr = bool(sts) and all(mentions_call(deep_resolve(rbm, e.get('r')), 'Builder::Build') for e in sts)
+    ctx.check('C07.O1', okr, rbm.name, 'regeneration:status-dropped', rbm.loc,
+              'RebuildManifest hands the status of its Builder::Build() to the caller (out-parameter %s)' % outp)
+    if okr:
+        for bid, b in rbm.blocks.items():
+            for i, s2 in enumerate(b['succ']):
+                if s2 is None:
+                    continue
+                if any(mentions_call(deep_resolve(rbm, a), 'Builder::Build') and 'ExitSuccess' in dstr(a) and p_ is False and '==' in dstr(a)
+                       for k_, p_, a in rbm.edge_facts(bid, i, all=True)):
+                    r = rbm.find_path(None, lambda x: x['k'] == 'ret', from_succ=s2, is_blocker=lambda x: x in sts)
+                    ctx.check('C07.O1', r is None, rbm.name, 'regeneration:status-not-stored-on-failure', 'src/ninja.cc:%s' % (b.get('term') or {}).get('line', '?'),
+                              'a regeneration build that did not succeed stores its status before RebuildManifest returns')
+    rmn = prog.fn('real_main')
+    errs = [e for e in rmn.events('call') if 'rebuilding' in dstr(e.get('args'))]
+    ctx.check('C07.O1', len(errs) == 1, rmn.name, 'regeneration:error-site', rmn.loc, 'real_main reports a failed regeneration')
+    for e in errs:
+        ex = [x for x in rmn.blocks[e['_b']]['ev'] if x['k'] == 'call' and x.get('name') in ('exit', '_exit') and x['_i'] > e['_i']]
+        okx = bool(ex) and all(const_value(x['args'][0]) is None and any(strip(o).get('k') != 'int' or True for o in origins(rmn, x['args'][0])) and
+                               any(mentions_var(c.get('args'), v_['n']) for c in rmn.calls('NinjaMain::RebuildManifest')
+                                   for v_ in walk(x['args'][0]) if v_.get('k') == 'var') for x in ex)
+        ctx.check('C07.O1', okx, rmn.name, 'regeneration:constant-exit-status', rmn.where(e),
+                  'after a failed regeneration real_main exits with the status RebuildManifest reported (130 on an interrupt), not a constant')
+    ctx.floor('C07.O1', 15)
 
     # ---- O2: cleanup rule ---------------------------------------------------------------------------------
     R('C07.O2', 'O', 'Cleanup stops the running commands first, then for every active edge — and for a '
